@@ -139,6 +139,30 @@ Proof.
     destruct (Hent k y Hin) as (w & p & _ & Hp & _). apply amem_alookup. eauto.
 Qed.
 
+Lemma smap_get_entries kvs r0 k : Forall2 kv_entry kvs r0 -> smap_get k kvs = alookup k r0.
+Proof.
+  induction 1 as [|kv e0 t t' [Ek Ev] _ IH]; [reflexivity|].
+  destruct kv as [kk kx], e0 as [ek ex]. cbn [fst snd] in Ek, Ev. subst kk kx.
+  cbn [smap_get alookup]. destruct (String.eqb k ek); [reflexivity | exact IH].
+Qed.
+
+(* the value Unserialize returns for a declared property that the raw map supplies *)
+Lemma obj_field_value e id u props f t nl kvs n k p d :
+  NoDup (map fst props) -> unser (S f) e (SObject id u props) (VMap t nl kvs) = Ok n ->
+  alookup k props = Some p -> smap_get k kvs = Some d ->
+  exists r2 y, n = raw_to_val r2 /\ alookup k r2 = Some y /\ unser f e (p_type p) d = Ok y.
+Proof.
+  intros Hnd H Hp Hd. rewrite (unser_object_eq words pu) in H. unfold obj_unser in H.
+  apply bind_ok in H. destruct H as (r0 & Hk & H). cbv zeta in H.
+  apply bind_ok in H. destruct H as (r2 & Hu & H).
+  apply bind_ok in H. destruct H as (u0 & _ & H). inversion H; subst n. clear H.
+  apply kfold_ok in Hk. destruct Hk as (es & H2 & _ & E). cbn [app] in E. subst es.
+  destruct (ufold_sound (unser f e) props Hnd _ r2 Hu) as (_ & Hl). specialize (Hl k).
+  rewrite (dfold_lookup (e_or e) props Hnd r0 k) in Hl. rewrite <- (smap_get_entries kvs r0 k H2), Hd in Hl.
+  unfold property in *. rewrite Hp in Hl. destruct Hl as (x & (_ & Hx) & Hx2).
+  exists r2, x. auto.
+Qed.
+
 (* the object branch of Unserialize, inverted *)
 Lemma unser_obj_inv e id u props f v n :
   NoDup (map fst props) ->
